@@ -17,12 +17,19 @@ structure ClassRec where
   declDt : List (Name × Ref)
   /-- `cls.accessibles` (for a mixin: the accessibles of its `__dict__`) -/
   accessibles : List (Name × Ref)
+  /-- the Property objects lying in this class' `__dict__` -/
+  propRef : List (Name × Ref)
+  /-- `cls.propertyDict` (for a mixin: the Property objects of its `__dict__`) -/
+  propDict : List (Name × Ref)
 deriving Inhabited
 
 structure InstRec where
   name : Name
   cls : Name
   accessibles : List (Name × Ref)
+  /-- `self.propertyValues`: the values of the module properties live on the instance, the Property objects
+  stay on the class (properties.py:119-126) -/
+  mvals : PropMap
 deriving Inhabited
 
 structure World where
@@ -47,7 +54,8 @@ def World.accessiblesOf (w : World) : Owner → List (Name × Ref)
 /-- every object an owner holds directly: its accessibles, and for a class everything in its `__dict__` -/
 def World.roots (w : World) : Owner → List Ref
   | .cls n => match w.findClass n with
-    | some c => c.accessibles.map (·.2) ++ c.accRef.map (·.2) ++ c.declDt.map (·.2)
+    | some c => c.accessibles.map (·.2) ++ c.accRef.map (·.2) ++ c.declDt.map (·.2) ++ c.propRef.map (·.2) ++
+        c.propDict.map (·.2)
     | none => []
   | .inst n => match w.findInst n with | some i => i.accessibles.map (·.2) | none => []
 
@@ -70,6 +78,26 @@ def viewAt (h : Heap) (r : Ref) : Option AccView :=
 /-- the abstraction: what `for_export()` of all accessibles of an owner is computed from -/
 def describeH (w : World) (o : Owner) : List (Name × Option AccView) :=
   (w.accessiblesOf o).map (fun nr => (nr.1, viewAt w.heap nr.2))
+
+/-- what can be seen of one module property of an owner: the Property object of the class, and for an
+instance its own value (`propertyValues.get(name)`) -/
+structure MView where
+  prop : Option PropV
+  value : Option PVal
+deriving DecidableEq, Repr, Inhabited
+
+/-- the abstraction, module-level part: what `exportProperties()` (properties.py:174-187) and the internal
+property values of an owner are computed from.  An instance holds values only; the Property objects it is
+described with are the ones of its class. -/
+def describeM (w : World) : Owner → List (Name × MView)
+  | .cls n => match w.findClass n with
+    | some c => c.propDict.map (fun nr => (nr.1, ⟨w.heap.propAt nr.2, none⟩))
+    | none => []
+  | .inst n => match w.findInst n with
+    | some i => match w.findClass i.cls with
+      | some c => c.propDict.map (fun nr => (nr.1, ⟨w.heap.propAt nr.2, aget? i.mvals nr.1⟩))
+      | none => []
+    | none => []
 
 /-- objects reachable from one accessible object -/
 def reachAcc (h : Heap) (r : Ref) : List Ref :=
@@ -134,8 +162,22 @@ def dictAccs (own : List (Name × Ref)) (dict : List (Name × EntryV)) : List (N
 def chainOf (w : World) (d : ClassDecl) : List ClassV :=
   d.mro.tail.filterMap (fun n => (w.findClass n).map (·.pure))
 
+/-- pass 0: the Property objects of the class' `__dict__` (declared ones, and the copies made for bare values) -/
+def allocProp (st : Heap × List (Name × Ref)) (ke : Name × EntryV) : Heap × List (Name × Ref) :=
+  match ke.2 with
+  | .prop p => (st.1 ++ [.prop p], st.2 ++ [(ke.1, st.1.length)])
+  | _ => st
+
+def layoutProp (w : World) (cv : ClassV) : Heap × List (Name × Ref) :=
+  cv.dict.foldl allocProp (w.heap, [])
+
+/-- `cls.propertyDict[name]`: the object lies in the `__dict__` of the class it was found in -/
+def propertyRef (w : World) (self : Name) (own : List (Name × Ref)) (ns : Name × PSlot) : Option (Name × Ref) :=
+  (if ns.2.owner == self then aget? own ns.1
+   else (w.findClass ns.2.owner).bind (fun cr => aget? cr.propRef ns.1)).map (fun r => (ns.1, r))
+
 def layoutDecl (w : World) (cv : ClassV) : Heap × List (Name × Ref) :=
-  cv.dict.foldl (allocDecl cv.decl.name) (w.heap, [])
+  cv.dict.foldl (allocDecl cv.decl.name) ((layoutProp w cv).1, [])
 
 def layoutAcc (w : World) (cv : ClassV) (s1 : Heap × List (Name × Ref)) : Heap × List (Name × Ref) :=
   cv.dict.foldl (allocAcc w cv.decl.name s1.2) (s1.1, [])
@@ -143,12 +185,19 @@ def layoutAcc (w : World) (cv : ClassV) (s1 : Heap × List (Name × Ref)) : Heap
 def layoutAccessibles (w : World) (cv : ClassV) (own : List (Name × Ref)) : List (Name × Ref) :=
   if cv.decl.isModule then cv.accessibles.filterMap (accessibleRef w cv.decl.name own) else dictAccs own cv.dict
 
+/-- the classes a new class can take objects from: the ones along its MRO (an accessible or a declared datatype
+object found by `__init_subclass__` lies in the `__dict__` of a class of `cls.__mro__`; `mro.tail`: the classes
+other than the new one, exactly the ones `chainOf` hands to `pureDefine`) -/
+def World.restrictTo (w : World) (mro : List Name) : World :=
+  { w with classes := w.classes.filter (fun c => mro.contains c.pure.decl.name) }
+
 def layoutRec (w : World) (cv : ClassV) : ClassRec :=
-  ⟨cv, (layoutAcc w cv (layoutDecl w cv)).2, (layoutDecl w cv).2,
-   layoutAccessibles w cv (layoutAcc w cv (layoutDecl w cv)).2⟩
+  ⟨cv, (layoutAcc (w.restrictTo cv.decl.mro.tail) cv (layoutDecl w cv)).2, (layoutDecl w cv).2,
+   layoutAccessibles (w.restrictTo cv.decl.mro.tail) cv (layoutAcc (w.restrictTo cv.decl.mro.tail) cv (layoutDecl w cv)).2,
+   (layoutProp w cv).2, cv.props.filterMap (propertyRef w cv.decl.name (layoutProp w cv).2)⟩
 
 def layout (w : World) (cv : ClassV) : World :=
-  { w with heap := (layoutAcc w cv (layoutDecl w cv)).1, classes := w.classes ++ [layoutRec w cv] }
+  { w with heap := (layoutAcc (w.restrictTo cv.decl.mro.tail) cv (layoutDecl w cv)).1, classes := w.classes ++ [layoutRec w cv] }
 
 def defineClass (T : Tables) (w : World) (d : ClassDecl) : World :=
   layout w (pureDefine T (chainOf w d) d)
@@ -181,6 +230,15 @@ def instViews (T : Tables) (views : List (Name × Option AccView)) (cfg : List (
       (nv.1, { nv.2 with tree := nv.2.tree.map (DTree.mainUnit (fun p => quote ((unquote p).replace "$" u))) }))
   | none => copied
 
+/-- `self.propertyValues` of a new instance of a class whose module properties look like `props`
+(properties.py:119-126: the values the Property objects carry; modulebase.py:372-384: the values given in the
+configuration, as `name = value` or as `name = {'value': value}`) -/
+def instMVals (props : List (Name × MView)) (cfg : List (Name × PropMap)) : PropMap :=
+  props.foldl (fun m np => match (aget? cfg np.1).bind (fun c => aget? c "value") with
+      | some v => m.put np.1 v
+      | none => m)
+    (props.filterMap (fun np => (np.2.prop.bind (·.value)).map (fun v => (np.1, v))))
+
 def allocView (st : Heap × List (Name × Ref)) (nv : Name × AccView) : Heap × List (Name × Ref) :=
   match nv.2.tree with
   | some t =>
@@ -190,18 +248,21 @@ def allocView (st : Heap × List (Name × Ref)) (nv : Name × AccView) : Heap ×
 
 def instantiate (T : Tables) (w : World) (name cls : Name) (cfg : List (Name × PropMap)) : World :=
   let s := (instViews T (describeH w (.cls cls)) cfg).foldl allocView (w.heap, [])
-  { w with heap := s.1, insts := w.insts ++ [⟨name, cls, s.2⟩] }
+  { w with heap := s.1, insts := w.insts ++ [⟨name, cls, s.2, instMVals (describeM w (.cls cls)) cfg⟩] }
 
 /-! ## run-time mutation of one instance -/
 
-def setprop (T : Tables) (w : World) (inst par key : Name) (val : PVal) : World :=
+/-- `Parameter.setProperty(key, val)` of one instance (`path = []`: a parameter property is set on the Parameter
+object, anything else on its datatype object), or `setProperty` on a member datatype of its datatype found along
+`path` (what a driver does to narrow the element type of a tuple / limits / struct parameter at run time) -/
+def setprop (T : Tables) (w : World) (inst par : Name) (path : List Nat) (key : Name) (val : PVal) : World :=
   match aget? (w.accessiblesOf (.inst inst)) par with
   | some r => match w.heap.accAt r with
     | some a =>
-      if a.isCmd || T.isParamProp key then { w with heap := w.heap.set r (.acc { a with props := a.props.put key val }) }
+      if path.isEmpty && (a.isCmd || T.isParamProp key) then { w with heap := w.heap.set r (.acc { a with props := a.props.put key val }) }
       else match a.dtype with
         | some rd => match w.heap.dtAt rd with
-          | some t => { w with heap := w.heap.set rd (.dt (t.setProp T.dtOwn key val)) }
+          | some t => { w with heap := w.heap.set rd (.dt (DTree.setPropAt T.dtOwn path t key val)) }
           | none => w
         | none => w
     | none => w
@@ -230,20 +291,20 @@ def addEnum (w : World) (inst par member : Name) : World :=
 inductive Op where
   | define (d : ClassDecl)
   | inst (name cls : Name) (cfg : List (Name × PropMap))
-  | setprop (inst par key : Name) (val : PVal)
+  | setprop (inst par : Name) (path : List Nat) (key : Name) (val : PVal)
   | addEnum (inst par member : Name)
 deriving Inhabited
 
 def Op.target : Op → Owner
   | .define d => .cls d.name
   | .inst n _ _ => .inst n
-  | .setprop i _ _ _ => .inst i
+  | .setprop i _ _ _ _ => .inst i
   | .addEnum i _ _ => .inst i
 
 def step (T : Tables) (w : World) : Op → World
   | .define d => defineClass T w d
   | .inst n c cfg => instantiate T w n c cfg
-  | .setprop i p k v => setprop T w i p k v
+  | .setprop i p pa k v => setprop T w i p pa k v
   | .addEnum i p m => addEnum w i p m
 
 def run (T : Tables) (w : World) (ops : List Op) : World := ops.foldl (step T) w
@@ -256,6 +317,14 @@ def exportProps (rows : List (Name × Name × PVal × Bool × Bool)) (props : Pr
     match props.get? name with
     | some v => if always || v != dflt || !stable then some (ext, v) else none
     | none => if always then some (ext, dflt) else none)
+
+/-- one entry of `exportProperties()` (properties.py:174-187) -/
+def exportM (nv : Name × MView) : Option (Name × PVal) :=
+  match nv.2.prop with
+  | some p =>
+    let val := nv.2.value.getD p.dflt
+    if p.exported != "false" && (p.exported == "\"always\"" || val != p.dflt) then some (p.extname, val) else none
+  | none => none
 
 def exportView (T : Tables) (v : AccView) : PropMap :=
   exportProps (if v.isCmd then T.cmdExport else T.paramExport) v.props
